@@ -382,7 +382,7 @@ impl Prop for C10 {
     fn plan(&self, tier: Tier) -> Plan {
         match tier {
             Tier::Quick => Plan { runs: 6000, time_box_s: None, isolation: Isolation::Threads },
-            Tier::Thorough => Plan { runs: 600_000, time_box_s: Some(480), isolation: Isolation::Threads },
+            Tier::Thorough => Plan { runs: 1_500_000, time_box_s: Some(480), isolation: Isolation::Threads },
         }
     }
     fn generate(&self, rc: &RunCtx) -> WriterCase {
